@@ -40,8 +40,13 @@ def primary_conn_arg(fn, call):
         for lhs, how, rhs in written_lvalues(ev):
             if is_ref(lhs) and lhs.get('id') == a.get('id') and how in ('=', 'decl') and rhs is not None:
                 defs.append(rhs)
-    return bool(defs) and all(is_int(d, 0) or (is_member(d, 'conn', 'BusOwner') and is_ref(d['base'], 'primary_owner'))
-                              for d in defs)
+    def okdef(d):
+        while d.get('k') in ('paren', 'cast') and isinstance(d.get('e'), dict):
+            d = d['e']
+        if d.get('k') == 'cond':       # c ? primary_owner->conn : NULL
+            return all(okdef(d[k]) for k in ('a', 'b') if isinstance(d.get(k), dict))
+        return is_int(d, 0) or (is_member(d, 'conn', 'BusOwner') and is_ref(d['base'], 'primary_owner'))
+    return bool(defs) and all(okdef(d) for d in defs)
 
 
 def irrevocable_last(fn, effects, neutral, summaries=None, hooked_after=()):
@@ -56,6 +61,7 @@ def irrevocable_last(fn, effects, neutral, summaries=None, hooked_after=()):
     sumcalls = {c['id']: c.get('callee') for b, i, c in fn.calls() if c.get('callee') in summaries
                 and not (c.get('callee') == 'bus_service_remove_owner' and primary_conn_arg(fn, c))}
     fallible = {c['id']: c.get('callee') for b, i, c in fn.calls() if c.get('callee')}
+    id2line = {c['id']: c['line'] for b, i, c in fn.calls()}
 
     def on_event(user, ev, ctx):
         pending, hooked = user
@@ -97,8 +103,17 @@ def irrevocable_last(fn, effects, neutral, summaries=None, hooked_after=()):
             return
         st = ctx.ret_status(ret)
         if st in ('fail', 'unknown'):
-            failed = {fallible[k[1]] for k, v in ctx.env.items()
-                      if k[0] == 'res' and v is False and k[1] in fallible}
+            # the step whose failure this exit reports: the call the returned value comes from, else the
+            # latest (by source position) call that is known to have failed on this path
+            failed = set()
+            o = ctx.origin_call(ret) if ret is not None else None
+            if o is not None and o[0] in fallible:
+                failed = {fallible[o[0]]}
+            else:
+                fl = [(id2line.get(k[1], 0), fallible[k[1]]) for k, v in ctx.env.items()
+                      if k[0] == 'res' and v is False and k[1] in fallible and fallible[k[1]] != 'dbus_error_is_set']
+                if fl:
+                    failed = {max(fl)[1]}
             for lab, line in lv:
                 ex_ok = failed and all((fn.name, lab.split('[')[0], f) in EXEMPT for f in failed
                                        if f not in ('dbus_error_is_set',))
